@@ -9,7 +9,7 @@ Mutants the oracle kills and the check does not report are candidate MISSES to b
 does not kill are either beyond the oracle's samples or candidate FALSE ALARMS.  The verdicts of the registered checks never
 depend on this tool.
 
-usage: mutation_triage.py <ID> [--max N] [--jobs J] [--demo path ...] [--out file.json] [--funcs name,name]
+usage: mutation_triage.py <ID> [--max N] [--jobs J] [--demo path ...] [--probe benign/<ID>/probe.py] [--out file.json] [--funcs name,name]\n(--probe: a behaviour recorder; a mutant whose records differ from the unmodified tree's counts as killed)
 """
 import ast, copy, json, os, random, shutil, subprocess, sys, tempfile, concurrent.futures as cf
 
@@ -178,6 +178,32 @@ def make_mutants(relpath, quals, limit, rnd):
     return out
 
 
+def _same(a, b, tol=1e-9):
+    if isinstance(a, (int, float)) and isinstance(b, (int, float)) and not isinstance(a, bool) and not isinstance(b, bool):
+        if (a != a and b != b) or a == b:
+            return True
+        return abs(a - b) <= tol * max(1.0, abs(a), abs(b))
+    if isinstance(a, list) and isinstance(b, list):
+        return len(a) == len(b) and all(_same(x, y, tol) for x, y in zip(a, b))
+    if isinstance(a, dict) and isinstance(b, dict):
+        return a.keys() == b.keys() and all(_same(a[k], b[k], tol) for k in a)
+    return a == b
+
+
+PROBE_BASE = {}
+
+
+def probe_baseline(probe):
+    """output of a behaviour probe (benign/<ID>/probe.py) on the unmodified tree"""
+    if probe not in PROBE_BASE:
+        env = dict(os.environ, PYTHONPATH=REPO, MPLBACKEND='Agg', NUMBA_NUM_THREADS='2', OMP_NUM_THREADS='2', OPENBLAS_NUM_THREADS='2',
+                   NUMBA_CACHE_DIR=tempfile.mkdtemp(prefix='vsa_nc_'))
+        q = subprocess.run(['/venv/bin/python', probe], cwd=REPO, env=env, capture_output=True, text=True, timeout=900)
+        PROBE_BASE[probe] = json.loads(q.stdout)
+        shutil.rmtree(env['NUMBA_CACHE_DIR'], ignore_errors=True)
+    return PROBE_BASE[probe]
+
+
 def run_one(pid, mut, demos, idx):
     d = tempfile.mkdtemp(prefix='vsa_mut_%s_' % pid)
     try:
@@ -191,6 +217,21 @@ def run_one(pid, mut, demos, idx):
         denv = dict(os.environ, PYTHONPATH=d, MPLBACKEND='Agg', NUMBA_CACHE_DIR=os.path.join(d, '.nc'), NUMBA_NUM_THREADS='2', OMP_NUM_THREADS='2',
                     OPENBLAS_NUM_THREADS='2')
         for demo in demos:
+            if demo.startswith('probe:'):
+                try:
+                    q = subprocess.run(['/venv/bin/python', demo[6:]], cwd=d, env=denv, capture_output=True, text=True, timeout=600)
+                    try:
+                        outp = json.loads(q.stdout)
+                        base = probe_baseline(demo[6:])
+                        diff = next((str(x)[:100] + ' | ' + str(y)[:100] for x, y in zip(base, outp) if not _same(x, y)), None)
+                        if diff is None and len(base) != len(outp):
+                            diff = 'number of records differs'
+                        res['demos'][demo] = {'exit': 1 if diff else 0, 'tail': diff or ''}
+                    except Exception:  # noqa
+                        res['demos'][demo] = {'exit': 'crash', 'tail': (q.stdout + q.stderr)[-240:]}
+                except subprocess.TimeoutExpired:
+                    res['demos'][demo] = {'exit': 'timeout', 'tail': ''}
+                continue
             try:
                 q = subprocess.run(['/venv/bin/python', demo], cwd=d, env=denv, capture_output=True, text=True, timeout=420)
                 crashed = q.returncode != 0 and 'Traceback (most recent call last)' in q.stderr
@@ -226,6 +267,9 @@ def main():
         for nm in sorted(os.listdir(sd)) if os.path.isdir(sd) else []:
             if nm.startswith(pid) and os.path.exists(os.path.join(sd, nm, 'demo.py')):
                 demos.append(os.path.join(sd, nm, 'demo.py'))
+    for pr in [sys.argv[k + 1] for k, a in enumerate(sys.argv) if a == '--probe']:
+        demos.append('probe:' + os.path.abspath(pr))
+        probe_baseline('' + os.path.abspath(pr))
     tg = targets_from_evidence(pid)
     only = set((opt('--funcs') or '').split(',')) - {''}
     muts = []
